@@ -103,6 +103,16 @@ def invalid_request(rng, tr: Tracker, kind=None):
 def random_query(rng, tr: Tracker):
     r = rng.random()
     all_ops = [(j, p) for j, job in enumerate(tr.spec) for p in range(len(job))]
+    ready = [[j, tr.jnext[j]] for j in tr.ready_jobs()]
+    if r < 0.12 and ready:
+        sub = [k for k in ready if rng.random() < 0.6] or [rng.choice(ready)]
+        if rng.random() < 0.3:
+            rng.shuffle(sub)
+        if rng.random() < 0.5:
+            return [1, 15, sub]
+        return [1, 16, [rng.randrange(4), sub]]
+    if r < 0.15 and all_ops:
+        return [1, 15, [list(rng.choice(all_ops)) for _ in range(rng.randint(0, 3))]]
     if r < 0.7 or not all_ops:
         return [1, rng.choice(Q_NOARG), []]
     if r < 0.82:
@@ -113,9 +123,48 @@ def random_query(rng, tr: Tracker):
     return [1, 14, rng.randrange(len(tr.spec))]
 
 
+def to_env_event(rng, ev):
+    """dispatch event -> env.step event for the same (job, machine)"""
+    _, j, p, m = ev
+    return [8, j, m[0] if m else -1]
+
+
+def invalid_env_step(rng, tr: Tracker):
+    spec = tr.spec
+    kinds = rng.sample(["finished_job", "ineligible", "too_large", "neg_out", "none_multi"], 5)
+    for kd in kinds:
+        if kd == "finished_job":
+            done = [j for j, job in enumerate(spec) if tr.jnext[j] >= len(job)]
+            if not done:
+                continue
+            j = rng.choice(done)
+            return [8, j, rng.choice([-1, 0, tr.nm - 1])], kd
+        jobs = tr.ready_jobs()
+        if not jobs:
+            continue
+        j = rng.choice(jobs)
+        ms = spec[j][tr.jnext[j]][0]
+        if kd == "ineligible":
+            others = [m for m in range(tr.nm) if m not in ms]
+            if not others:
+                continue
+            return [8, j, rng.choice(others)], kd
+        if kd == "too_large":
+            return [8, j, tr.nm + rng.randint(0, 2)], kd
+        if kd == "neg_out":
+            return [8, j, -tr.nm - rng.randint(1, 2)], kd
+        if kd == "none_multi":
+            multi = [jj for jj in jobs if len(spec[jj][tr.jnext[jj]][0]) > 1]
+            if not multi:
+                continue
+            return [8, rng.choice(multi), -1], kd
+    return None
+
+
 def gen_session(rng: random.Random, spec, *, p_invalid=0.0, p_query=0.0, p_reset=0.0,
                 p_obs=0.0, p_snapshot=1.0, start_observers=(), max_events=60,
-                snapshot_around_invalid=False, stop_early=0.15, obs_kinds=(0, 1, 2, 3, 4, 5)):
+                snapshot_around_invalid=False, stop_early=0.15, obs_kinds=(0, 1, 2, 3, 4, 5),
+                env_mode=False):
     """Returns (events, stats)."""
     tr = Tracker(spec)
     events = []
@@ -142,7 +191,7 @@ def gen_session(rng: random.Random, spec, *, p_invalid=0.0, p_query=0.0, p_reset
     while len(events) < max_events:
         r = rng.random()
         if r < p_invalid:
-            iv = invalid_request(rng, tr)
+            iv = invalid_env_step(rng, tr) if env_mode else invalid_request(rng, tr)
             if iv is not None:
                 ev, kd = iv
                 if snapshot_around_invalid:
@@ -192,6 +241,8 @@ def gen_session(rng: random.Random, spec, *, p_invalid=0.0, p_query=0.0, p_reset
         if tr.done() or (target is not None and n_accepted >= target):
             break
         ev = valid_request(rng, tr)
+        if env_mode:
+            ev = to_env_event(rng, ev)
         events.append(ev)
         n_accepted += 1
         stats["dispatch"] += 1
